@@ -12,7 +12,6 @@ import (
 	"fmt"
 	"math/rand"
 	"net"
-	"os"
 	"sort"
 	"strconv"
 	"strings"
@@ -61,11 +60,7 @@ func (h *harness) initCtx() {
 		return
 	}
 	h.ctxInit = true
-	// tars parses os.Args for its own -config flag on first use; hide the harness flags from it
-	saved := os.Args
-	os.Args = os.Args[:1]
 	ctxComm = tars.NewCommunicator()
-	os.Args = saved
 	tars.RegisterClientFilter(func(ctx context.Context, msg *tars.Message, invoke tars.Invoke, timeout time.Duration) error {
 		ctxMsg = msg
 		switch ctxMode {
